@@ -9,15 +9,21 @@ SEEDS = {'t0': 11, 'tB': 22, 'zz': 33}
 _cache = {}
 
 
+# the same names and identifier codes in every trace, but `zz` declares d with another width: what is known about a
+# signal of one trace must never be answered from another trace's tables
+SIGSETS = {'zz': [('clk', 1), ('a', 1), ('d', 6), ('cnt', 8)]}
+
+
 def trace(tid):
     if tid not in _cache:
-        vf, den = gen_trace.simple_vcd(random.Random(SEEDS[tid]), LENS[tid])
+        vf, den = gen_trace.simple_vcd(random.Random(SEEDS[tid]), LENS[tid], sigs=SIGSETS.get(tid))
         _cache[tid] = (gen_trace.render(vf), den)
     return _cache[tid]
 
 
 ALPHABET = ([['load', t] for t in TIDS] + [['unload', t] for t in TIDS] + [['fail', 'missing', 'q1'], ['fail', 'ext', 'q2'], ['fail', 'ext', 't0']]
-            + [['step', 1], ['step', -1], ['step', 3], ['reval', 1], ['reval', 3], ['reval', -1]] + [['stepid', t, 1] for t in TIDS] + [['stepid', 't0', -1], ['stepid', 'tB', 4]])
+            + [['step', 1], ['step', -1], ['step', 3], ['reval', 1], ['reval', 3], ['reval', -1]] + [['stepid', t, 1] for t in TIDS] + [['stepid', 't0', -1], ['stepid', 'tB', 4]]
+            + [['stepids', ['t0', 'tB'], 2], ['stepids', ['tB', 't0'], 3], ['stepids', ['zz', 'tB'], 1], ['stepids', ['t0', 'zz', 'tB'], -1]])
 
 
 def _v(x):
@@ -29,8 +35,8 @@ class C12(framework.PropertyCheck):
     quick_cases = 500
     thorough_cases = 6000
     rule = ('op sequences (len<=6 random; thorough: all sequences of length<=3 over a 20-op alphabet plus random) of load / unload / '
-            'failing load (missing file, unsupported extension, duplicate id) / step / step "tid" / relative evaluation over three generated traces with the '
-            'same signal names and different lengths, probed after every op against a dictionary-of-traces reference; '
+            'failing load (missing file, unsupported extension, duplicate id) / step / step "tid" / step "tid1" "tid2".. n / relative evaluation over three generated traces with the '
+            'same signal names and identifier codes, different lengths and one differing signal width, probed after every op against a dictionary-of-traces reference; '
             'non-trivial = at least two traces loaded at some point and at least one failing load or unload')
 
     def cases(self, rng, tier, n):
@@ -98,6 +104,17 @@ class C12(framework.PropertyCheck):
                 if ok:
                     loaded[t] = ni
                 plan.append((('eval', 'eorg', f'(step "{t}" {op[2]})'), ('val', ('B', ok))))
+            elif k == 'stepids':
+                if any(t not in loaded for t in op[1]):
+                    continue
+                ok = True
+                for t in op[1]:          # every listed trace is asked on its own; one that cannot move stays, the others move
+                    ni = loaded[t] + op[2]
+                    if 0 <= ni < LENS[t]:
+                        loaded[t] = ni
+                    else:
+                        ok = False
+                plan.append((('eval', 'eorg', '(step ' + ' '.join(f'"{t}"' for t in op[1]) + f' {op[2]})'), ('val', ('B', ok))))
             # probes
             plan.append((('eval', 'eorg', '(loaded-traces)'), ('val', ('L', False, tuple(('S', t) for t in loaded)))))
             if loaded:
@@ -105,16 +122,16 @@ class C12(framework.PropertyCheck):
                 for t, i in loaded.items():
                     den = trace(t)[1]
                     parts += [f'{t}^INDEX', f'{t}^TS', f'{t}^MAX-INDEX', f'{t}^top.cnt', f'{t}^top.d', f'(signal-width "{t}^top.cnt")',
-                              f'(signal? "{t}^top.d")', f'(signal? "{t}^nosuch")']
+                              f'(signal? "{t}^top.d")', f'(signal? "{t}^nosuch")', f'(signal-width "{t}^top.d")']
                     want += [('I', i), ('I', den['timestamps'][i]), ('I', LENS[t] - 1), _v(den['values']['top.cnt'][i]),
-                             _v(den['values']['top.d'][i]), ('I', 8), ('B', True), ('B', False)]
+                             _v(den['values']['top.d'][i]), ('I', 8), ('B', True), ('B', False), ('I', den['widths']['top.d'])]
                 plan.append((('eval', 'eorg', '(list ' + ' '.join(parts) + ')'), ('val', ('L', True, tuple(want)))))
                 if len(loaded) == 1:
                     (t, i), = loaded.items()
                     den = trace(t)[1]
                     plan.append((('eval', 'eorg', '(list INDEX TS MAX-INDEX top.cnt (signal-width "top.d") (in-scope "top" ~cnt) SCOPES SIGNALS)'),
                                  ('val', ('L', True, (('I', i), ('I', den['timestamps'][i]), ('I', LENS[t] - 1),
-                                                      _v(den['values']['top.cnt'][i]), ('I', 4), _v(den['values']['top.cnt'][i]),
+                                                      _v(den['values']['top.cnt'][i]), ('I', den['widths']['top.d']), _v(den['values']['top.cnt'][i]),
                                                       ('L', False, (('S', 'top'),)),
                                                       ('L', False, tuple(('S', s) for s in den['signals'])))))))
                 else:
